@@ -429,3 +429,35 @@ pub fn fmt_edits(block: &syn::Block, src: &str, edits: &mut Vec<Edit>, rewrites:
     let mut v = FmtWrap { src, edits, rewrites };
     v.visit_block(block);
 }
+
+/// R10: `A + &B` -> `std::ops::Add::add(A, &B)` (definitional desugaring of the operator; the installed Verus
+/// crashes on binary `+` with a reference right-hand side)
+struct AddUfcs<'a> {
+    src: &'a str,
+    edits: &'a mut Vec<Edit>,
+    rewrites: &'a mut Vec<String>,
+}
+impl<'ast, 'a> Visit<'ast> for AddUfcs<'a> {
+    fn visit_expr_binary(&mut self, e: &'ast syn::ExprBinary) {
+        if matches!(e.op, syn::BinOp::Add(_)) && matches!(&*e.right, syn::Expr::Reference(_)) {
+            let (ls, le) = br(e.left.span());
+            let (rs, re) = br(e.right.span());
+            // only rewrite when the left operand is not itself rewritten (no nested `+ &`)
+            let mut inner = AddUfcs { src: self.src, edits: &mut Vec::new(), rewrites: &mut Vec::new() };
+            inner.visit_expr(&e.left);
+            if inner.edits.is_empty() {
+                self.edits.push(Edit { start: ls, end: ls, text: "std::ops::Add::add(".into(), kind: "R10 add".into(), prio: -2 });
+                self.edits.push(Edit { start: le, end: rs, text: ", ".into(), kind: "R10 add".into(), prio: 0 });
+                self.edits.push(Edit { start: re, end: re, text: ")".into(), kind: "R10 add".into(), prio: -6 });
+                self.rewrites.push(format!("R10 `{}` -> `std::ops::Add::add(.., ..)`", norm(&self.src[ls..re]).chars().take(60).collect::<String>()));
+                self.visit_expr(&e.right);
+                return;
+            }
+        }
+        syn::visit::visit_expr_binary(self, e);
+    }
+}
+pub fn add_ufcs_edits(block: &syn::Block, src: &str, edits: &mut Vec<Edit>, rewrites: &mut Vec<String>) {
+    let mut v = AddUfcs { src, edits, rewrites };
+    v.visit_block(block);
+}
